@@ -12,7 +12,7 @@ from typing import Any, Dict, List, Optional, Sequence, Tuple
 
 import z3
 
-from ..models.schema import ROOT_TABLE, rel_specs
+from ..models.schema import ROOT_TABLE, rel_specs, specs_for
 from . import filtergen as G
 from . import orm, regions, relgen
 from . import odata_ref as R
@@ -25,9 +25,9 @@ from .symdb import SymDB
 STR_CAP = 2
 
 
-def make_db(slots: Optional[Sequence[int]] = None) -> SymDB:
-    db = SymDB(rel_specs(*(slots or (2, 3, 2, 3))), str_cap=STR_CAP)
-    links = db.tables["vt_parent_tags"]
+def make_db(slots: Optional[Sequence[int]] = None, model: str = "Parent") -> SymDB:
+    db = SymDB(specs_for(model, slots), str_cap=STR_CAP)
+    links = db.tables.get("vt_parent_tags", [])
     for i, a in enumerate(links):                   # the through table has a unique (parent, tag) constraint
         for b in links[i + 1:]:
             db.cons.append(z3.Not(z3.And(a.present, b.present, a.cells["parent_id"].val == b.cells["parent_id"].val,
@@ -37,7 +37,7 @@ def make_db(slots: Optional[Sequence[int]] = None) -> SymDB:
 
 def db_prefs(db: SymDB, consts) -> List[Any]:
     prefs: List[Any] = []
-    for t in ("vt_parent_tags", "vt_tag", "vt_child", "vt_parent"):
+    for t in reversed(list(db.tables)):
         prefs += [z3.Not(s.present) for s in reversed(db.tables[t]) if not z3.is_true(s.present)]
     for v in db.str_cells():
         prefs.append(z3.Or(v.null, z3.ULE(v.len, 1)))
@@ -59,7 +59,7 @@ class RelCheck:
         self.term, self.sent = G.with_sentinels(item["term"])
         self.text = G.to_text(self.term)
         self.feats = relgen.features(self.term)
-        self.db = make_db(item.get("slots"))
+        self.db = make_db(item.get("slots"), self.model)
         self.consts: Dict[int, V.IntV] = {}
         self.ccons: List[Any] = []
         for s in self.sent:
@@ -566,7 +566,14 @@ def _check_host(chk: "RelCheck", item: dict, backend: str) -> None:
                 expected[tb] = expected.get(tb, 0) + 1
             counts = _table_counts(p["tree"][1])
             extra = {t: (n, expected.get(t, 0)) for t, n in counts.items() if n > expected.get(t, 0)}
-            if extra:
+            cross = [j[2] for j in p["tree"][1]["joins"] if j[1] == "cross"]
+            missing = {t: (counts.get(t, 0), e) for t, e in expected.items() if counts.get(t, 0) < e} \
+                if backend != "django" else {}
+            if cross or missing:
+                chk.emit("once", backend, "violation", witness=w,
+                         what=f"a navigated relationship is not joined: comma-separated (cartesian) FROM items {cross}, "
+                              f"tables joined less often than navigated { {t: f'{n} of {e}' for t, (n, e) in missing.items()} }")
+            elif extra:
                 chk.emit("once", backend, "violation", witness=w,
                          what=f"table(s) joined more often than the host query plus the filter need: "
                               f"{ {t: f'{n} times, expected <= {e}' for t, (n, e) in extra.items()} }")
